@@ -216,6 +216,49 @@ def loaded_pass(ctx):
         shutil.rmtree(tmp, ignore_errors=True)
 
 
+def named_tree_lines(ctx, res, tag):
+    """the named elements below every root of a metamodel resource as a tree for `driver ntree`, with the real fragment
+    and the real resolution of every element"""
+    lines, expect = ctx.extra.setdefault('ntree_in', []), ctx.extra.setdefault('ntree_expect', [])
+
+    def named_kids(o):
+        ks = []
+        for f in sorted((f for f in o.eClass.eAllReferences() if f.containment and not f.derived), key=lambda f: f.name):
+            v = o.eGet(f)
+            ks += [c for c in (list(v) if f.many else ([v] if v is not None else [])) if getattr(c, 'name', None)]
+        return ks
+    for k, root in enumerate(res.contents):
+        pos = {}
+
+        def enc(o, p):
+            pos[id(o)] = p
+            ks = named_kids(o)
+            out = [str(o.name).replace(' ', '_') or '_', str(len(ks))]
+            for i, c in enumerate(ks):
+                out += enc(c, p + [i])
+            return out
+        toks = enc(root, [])
+        if any(' ' in str(getattr(o, 'name', '')) or '/' in str(getattr(o, 'name', '')) for o in [root] + list(root.eAllContents())):
+            continue
+        lines.append('tree ' + ' '.join(toks)); expect.append(None)
+        prefix = '#/' if len(res.contents) == 1 else f'#/{k}'
+        for o in root.eAllContents():
+            if id(o) not in pos:
+                continue
+            p = pos[id(o)]
+            real = o.eURIFragment()
+            if not real.startswith(prefix + '/'):
+                continue
+            names = real[len(prefix) + 1:]
+            lines.append('frag ' + '.'.join(map(str, p))); expect.append((tag, '#//' + names, f'fragment of {type(o).__name__} {o.name!r}'))
+            try:
+                back = res.resolve(real)
+            except Exception:
+                back = None
+            lines.append('resolve ' + names)
+            expect.append((tag, '.'.join(map(str, pos[id(back)])) if back is not None and id(back) in pos else 'none', f'resolve({real!r})'))
+
+
 def metamodel_pass(ctx):
     """name-based fragments of metamodel elements: generated metamodels in resources with one to three root packages,
     edited (subpackage / class renamed, class moved to another package); after every edit, for every element under a
@@ -265,6 +308,9 @@ def metamodel_pass(ctx):
                     seen[fr] = e
                 if problem:
                     break
+            # the same state against the Lean model of name-based fragments (`Model/NamedTree.lean`)
+            if not problem:
+                named_tree_lines(ctx, res, (h, step))
             ctx.nontriv(('meta', h, step))
             ctx.count(f'meta/roots-{nroots}')
             if problem:
@@ -272,6 +318,16 @@ def metamodel_pass(ctx):
                             {'case': h, 'pass': 'metamodel', 'roots': nroots, 'edits': log})
                 break
             log += c10.restructure_pkg(rng, rng.choice(roots))
+    lines, expect = ctx.extra.pop('ntree_in', []), ctx.extra.pop('ntree_expect', [])
+    if lines:
+        out = common.run_driver('ntree', lines)
+        ctx.count('meta/named-tree-lines', len(lines))
+        for line, exp, got in zip(lines, expect, out):
+            if exp is None:
+                continue
+            tag, want, what = exp
+            if got != want and len(ctx.divergences) < 10:
+                ctx.diverge(f'metamodel case {tag}: {what}: model `{got}` vs implementation `{want}` (`{line}`)', {'case': list(tag)})
 
 
 def failed_load_pass(ctx):
